@@ -143,6 +143,16 @@ Record dinput := {
   d_full : bool
 }.
 
+(* the if/elif chain choosing the absolute format; [same_day] is
+   local_date.day == local_yesterday.day: the two instants are less than 24 h apart
+   when days = 1, so equal day-of-month <=> same calendar day *)
+Definition abs_class (days : Z) (same_day relative : bool) : aclass :=
+  if days =? 0 then ATime
+  else if (days =? 1) && same_day && relative then AYesterday
+  else if days <? 5 then AWeekday
+  else if days <? 334 then AMonthDay
+  else AFull.
+
 Definition format_date (i : dinput) : dres :=
   let now := d_now i in
   let date0 := now + d_delta i in
@@ -164,15 +174,7 @@ Definition format_date (i : dinput) : dres :=
   if negb full_format then
     if relative && (days =? 0) then
       let '(u, n) := relative_phrase seconds in Rel u n
-    else if days =? 0 then Abs ATime shorter
-    else if (days =? 1)
-            (* local_date.day == local_yesterday.day: the two instants are less than
-               24 h apart here, so equal day-of-month <=> same calendar day *)
-            && (local_date / us_per_day =? local_yesterday / us_per_day)
-            && relative then Abs AYesterday shorter
-    else if days <? 5 then Abs AWeekday shorter
-    else if days <? 334 then Abs AMonthDay shorter
-    else Abs AFull shorter
+    else Abs (abs_class days (local_date / us_per_day =? local_yesterday / us_per_day) relative) shorter
   else Abs AFull shorter.
 
 (* `_(singular, plural, n) % {...}` with the identity translation *)
@@ -190,8 +192,224 @@ Definition render_rel (u : tunit) (n : Z) : option (list N) :=
   else bind (py_str_int n) (fun ds => Some (ds ++ plural_suffix u)).
 
 (* ------------------------------------------------------------------ *)
+(* proleptic Gregorian calendar (datetime.year/.month/.day/.weekday())  *)
+(* ------------------------------------------------------------------ *)
+(* days since 1970-01-01 -> (year, month 1..12, day 1..31) *)
+Definition civil_from_days (z : Z) : Z * Z * Z :=
+  let z1 := z + 719468 in
+  let era := z1 / 146097 in
+  let doe := z1 - era * 146097 in
+  let yoe := (doe - doe / 1460 + doe / 36524 - doe / 146096) / 365 in
+  let y := yoe + era * 400 in
+  let doy := doe - (365 * yoe + yoe / 4 - yoe / 100) in
+  let mp := (5 * doy + 2) / 153 in
+  let d := doy - (153 * mp + 2) / 5 + 1 in
+  let m := if mp <? 10 then mp + 3 else mp - 9 in
+  (if m <=? 2 then y + 1 else y, m, d).
+
+(* the textbook day count of a civil date (used only in theorems) *)
+Definition days_from_civil (y m d : Z) : Z :=
+  let y1 := if m <=? 2 then y - 1 else y in
+  let era := y1 / 400 in
+  let yoe := y1 - era * 400 in
+  let doy := (153 * (if 2 <? m then m - 3 else m + 9) + 2) / 5 + d - 1 in
+  let doe := yoe * 365 + yoe / 4 - yoe / 100 + doy in
+  era * 146097 + doe - 719468.
+
+(* datetime.weekday(): Monday = 0; 1970-01-01 was a Thursday *)
+Definition weekday_of_days (z : Z) : Z := (z + 3) mod 7.
+
+Definition months : list (list N) :=
+  map codes ["January"; "February"; "March"; "April"; "May"; "June"; "July"; "August";
+             "September"; "October"; "November"; "December"]%string.
+Definition weekdays : list (list N) :=
+  map codes ["Monday"; "Tuesday"; "Wednesday"; "Thursday"; "Friday"; "Saturday"; "Sunday"]%string.
+(* l[i] for 0 <= i < len(l); None = IndexError (proved unreachable) *)
+Definition index_name (l : list (list N)) (i : Z) : option (list N) :=
+  if i <? 0 then None else nth_error l (Z.to_nat i).
+
+(* ------------------------------------------------------------------ *)
+(* "fmt % {...}" with %(key)s fields only                               *)
+(* ------------------------------------------------------------------ *)
+Fixpoint lookup (env : list (list N * list N)) (k : list N) : option (list N) :=
+  match env with
+  | [] => None
+  | (k', v) :: r => if (fix eqb (a b : list N) : bool :=
+                          match a, b with
+                          | [], [] => true
+                          | x :: a', y :: b' => (x =? y)%N && eqb a' b'
+                          | _, _ => false
+                          end) k k' then Some v else lookup r k
+  end.
+
+(* key = None: copying text; key = Some k: inside "%(" collecting the key (reversed).
+   None = KeyError / ValueError (malformed format) *)
+Fixpoint py_format_go (env : list (list N * list N)) (t : list N) (key : option (list N)) : option (list N) :=
+  match t with
+  | [] => match key with None => Some [] | Some _ => None end
+  | c :: r =>
+      match key with
+      | None =>
+          if (c =? 37)%N then                              (* % *)
+            match r with
+            | c2 :: r2 => if (c2 =? 40)%N then py_format_go env r2 (Some []) else None
+            | [] => None
+            end
+          else option_map (cons c) (py_format_go env r None)
+      | Some k =>
+          if (c =? 41)%N then                              (* ) *)
+            match r with
+            | c2 :: r2 =>
+                if (c2 =? 115)%N then                      (* s *)
+                  bind (lookup env (rev k)) (fun v => option_map (app v) (py_format_go env r2 None))
+                else None
+            | [] => None
+            end
+          else py_format_go env r (Some (c :: k))
+      end
+  end.
+Definition py_format (t : list N) (env : list (list N * list N)) : option (list N) :=
+  py_format_go env t None.
+
+(* ------------------------------------------------------------------ *)
+(* format_date: the absolute formats                                   *)
+(* ------------------------------------------------------------------ *)
+(* self.code: ("en","en_US") -> 12 h clock; "zh_CN" -> 12 h with prefix; others 24 h *)
+Inductive clock := C12 | CZh | C24.
+
+(* "%02d" % m for 0 <= m *)
+Definition pad2 (m : Z) : option (list N) :=
+  bind (py_str_int m) (fun d => Some (if m <? 10 then 48%N :: d else d)).
+
+Definition hour12 (hour : Z) : Z := if hour mod 12 =? 0 then 12 else hour mod 12.   (* hour % 12 or 12 *)
+
+Definition str_time (c : clock) (hour minute : Z) : option (list N) :=
+  match c with
+  | C24 => bind (py_str_int hour) (fun h => bind (pad2 minute) (fun m => Some (h ++ [58%N] ++ m)))
+  | CZh => bind (py_str_int (hour12 hour)) (fun h => bind (pad2 minute) (fun m =>
+             Some ((if 12 <=? hour then [19979%N; 21320%N] else [19978%N; 21320%N]) ++ h ++ [58%N] ++ m)))
+  | C12 => bind (py_str_int (hour12 hour)) (fun h => bind (pad2 minute) (fun m =>
+             Some (h ++ [58%N] ++ m ++ [32%N] ++ (if 12 <=? hour then codes "pm" else codes "am"))))
+  end.
+
+Definition template (c : aclass) (shorter : bool) : list N :=
+  match c, shorter with
+  | ATime, _ => codes "%(time)s"
+  | AYesterday, true => codes "yesterday"
+  | AYesterday, false => codes "yesterday at %(time)s"
+  | AWeekday, true => codes "%(weekday)s"
+  | AWeekday, false => codes "%(weekday)s at %(time)s"
+  | AMonthDay, true => codes "%(month_name)s %(day)s"
+  | AMonthDay, false => codes "%(month_name)s %(day)s at %(time)s"
+  | AFull, true => codes "%(month_name)s %(day)s, %(year)s"
+  | AFull, false => codes "%(month_name)s %(day)s, %(year)s at %(time)s"
+  end.
+
+(* the fields of a local instant t (microseconds) *)
+Definition date_env (clk : clock) (t : Z) : option (list (list N * list N)) :=
+  let dn := t / us_per_day in
+  let tod := t mod us_per_day in
+  let '(y, m, d) := civil_from_days dn in
+  bind (index_name months (m - 1)) (fun month_name =>
+  bind (index_name weekdays (weekday_of_days dn)) (fun weekday =>
+  bind (py_str_int d) (fun day =>
+  bind (py_str_int y) (fun year =>
+  bind (str_time clk (tod / (3600 * us_per_s)) ((tod / (60 * us_per_s)) mod 60)) (fun time =>
+  Some [(codes "month_name", month_name); (codes "weekday", weekday); (codes "day", day);
+        (codes "year", year); (codes "time", time)]))))).
+
+(* date after the `if date > now:` block *)
+Definition adjusted_date (i : dinput) : Z :=
+  let now := d_now i in
+  let date0 := now + d_delta i in
+  if now <? date0 then
+    if d_relative i && (date0 - now <? skew_seconds * us_per_s) then now else date0
+  else date0.
+Definition local_date (i : dinput) : Z := adjusted_date i - d_gmt i * 60 * us_per_s.
+
+(* the string format_date returns *)
+Definition date_text (clk : clock) (i : dinput) : option (list N) :=
+  match format_date i with
+  | Rel u n => render_rel u n
+  | Abs c sh => bind (date_env clk (local_date i)) (py_format (template c sh))
+  end.
+
+(* ------------------------------------------------------------------ *)
+(* Locale.format_day(date, gmt_offset, dow)                            *)
+(* ------------------------------------------------------------------ *)
+Definition day_template (dow : bool) : list N :=
+  if dow then codes "%(weekday)s, %(month_name)s %(day)s" else codes "%(month_name)s %(day)s".
+Definition format_day (date gmt : Z) (dow : bool) : option (list N) :=
+  bind (date_env C12 (date - gmt * 60 * us_per_s)) (py_format (day_template dow)).
+
+(* ------------------------------------------------------------------ *)
+(* Locale.list(parts)                                                  *)
+(* ------------------------------------------------------------------ *)
+Definition list_template : list N := codes "%(commas)s and %(last)s".
+Definition list_comma (fa : bool) : list N := if fa then [32%N; 1608%N; 32%N] else codes ", ".
+(* [fa] = self.code.startswith("fa") *)
+Definition locale_list (fa : bool) (parts : list (list N)) : option (list N) :=
+  match parts with
+  | [] => Some []
+  | [p] => Some p
+  | _ => py_format list_template
+           [(codes "commas", join (list_comma fa) (removelast parts)); (codes "last", last parts [])]
+  end.
+
+(* ------------------------------------------------------------------ *)
+(* Locale.get_closest over ASCII locale codes                          *)
+(* ------------------------------------------------------------------ *)
+Definition ascii_lower (c : N) : N := if ((65 <=? c) && (c <=? 90))%N then (c + 32)%N else c.
+Definition ascii_upper (c : N) : N := if ((97 <=? c) && (c <=? 122))%N then (c - 32)%N else c.
+Fixpoint text_eq (a b : list N) : bool :=
+  match a, b with
+  | [], [] => true
+  | x :: a', y :: b' => (x =? y)%N && text_eq a' b'
+  | _, _ => false
+  end.
+Definition mem_text (x : list N) (l : list (list N)) : bool := existsb (text_eq x) l.
+(* s.split("_") after s.replace("-", "_") *)
+Fixpoint split_us (s : list N) : list (list N) :=
+  match s with
+  | [] => [[]]
+  | c :: r =>
+      if ((c =? 95) || (c =? 45))%N then [] :: split_us r
+      else match split_us r with
+           | g :: gs => (c :: g) :: gs
+           | [] => [[c]]
+           end
+  end.
+Definition default_locale : list N := codes "en_US".
+
+Fixpoint get_closest (supported : list (list N)) (cs : list (list N)) : list N :=
+  match cs with
+  | [] => default_locale
+  | code :: rest =>
+      match code with
+      | [] => get_closest supported rest                       (* if not code: continue *)
+      | _ =>
+          let code1 := map (fun c => if (c =? 45)%N then 95%N else c) code in
+          match split_us code with
+          | [p0] =>
+              if mem_text code1 supported then code1
+              else if mem_text (map ascii_lower p0) supported then map ascii_lower p0
+              else get_closest supported rest
+          | [p0; p1] =>
+              let code2 := map ascii_lower p0 ++ [95%N] ++ map ascii_upper p1 in
+              if mem_text code2 supported then code2
+              else if mem_text (map ascii_lower p0) supported then map ascii_lower p0
+              else get_closest supported rest
+          | _ => get_closest supported rest                    (* len(parts) > 2: continue *)
+          end
+      end
+  end.
+
+(* ------------------------------------------------------------------ *)
 (* one correspondence case                                             *)
 (* ------------------------------------------------------------------ *)
 Inductive c46_input :=
 | INum (en : bool) (v : Z)
-| IDate (now delta gmt : Z) (relative shorter full : bool).
+| IDate (clk : clock) (now delta gmt : Z) (relative shorter full : bool)
+| IDay (date gmt : Z) (dow : bool)
+| IList (fa : bool) (parts : list (list N))
+| IClosest (supported codes : list (list N)).
